@@ -10,6 +10,7 @@ from ..threads import Worker
 
 ID = "C20"
 LEVEL = "proof"
+GEN_MODULES = ["XonshVerif.Gen.JobsReg"]
 PROPS_MODULES = ["XonshVerif.Props.C20"]
 TECHNIQUE = "Lean 4 proof (invariant by induction over op sequences; well-founded lowest-free search) + differential correspondence with xonsh/procs/jobs.py"
 LEVEL_TEXT = (
@@ -295,6 +296,87 @@ def property_clause_broken(ops, dis):
     return None
 
 
+REG_CHILD = r"""
+import json, os, random, sys
+sys.dont_write_bytecode = True
+sys.path.insert(0, sys.argv[1])
+import warnings; warnings.simplefilter("ignore")
+from xonsh.main import setup
+setup(shell_type="none")
+from xonsh.built_ins import XSH
+from xonsh.procs import jobs as xj
+from xonsh.procs.specs import _run_command_pipeline, cmds_to_specs
+XSH.env["XONSH_INTERACTIVE"] = False
+XSH.env["THREAD_SUBPROCS"] = True
+def _al(args, stdin=None):
+    if stdin is not None:
+        stdin.read()
+    return "a\n"
+XSH.aliases["xvalias"] = _al
+rng = random.Random(int(sys.argv[2]))
+out = []
+for i in range(int(sys.argv[3])):
+    n = rng.choice([1, 1, 2, 2, 3])
+    kinds = [rng.choice(["real", "alias"]) for _ in range(n)]
+    cmds = []
+    for j, k in enumerate(kinds):
+        if j:
+            cmds.append("|")
+        cmds.append(["xvalias"] if k == "alias" else (["cat"] if j else ["echo", "hi"]))
+    specs = cmds_to_specs(cmds, captured="hiddenobject")
+    proxies = [bool(s.is_proxy) for s in specs]
+    cp = _run_command_pipeline(specs, cmds)
+    nums = [num for num, j in xj.get_jobs().items() if j.get("pipeline") is cp]
+    mru = [t for t in xj.get_tasks() if t in nums]
+    keys = sorted(xj.get_jobs())
+    tasks = list(xj.get_tasks())
+    try:
+        cp.end()
+    except Exception as e:
+        pass
+    out.append({"kinds": kinds, "is_proxy": proxies, "proc": cp.proc is not None, "nums": nums, "mru": mru, "keys": keys, "tasks": tasks})
+print("XVRESULT " + json.dumps(out))
+"""
+
+
+def stream_registration(ctx, n, name="registration"):
+    """real cmds_to_specs + _run_command_pipeline in a child interpreter: which pipelines end up in the job table"""
+    import json
+    import subprocess
+
+    ctx.stream_rule(
+        name,
+        "real pipelines of 1-3 stages mixing external processes and callable aliases are built with cmds_to_specs and started with "
+        "_run_command_pipeline in a child interpreter; a pipeline holding at least one real process must appear exactly once in the "
+        "job dict and once in the MRU deque, an alias-only pipeline must not appear; non-trivial = mixed pipeline",
+    )
+    p = subprocess.run(["/venv/bin/python", "-c", REG_CHILD, str(common.REPO), str(ctx.seed), str(n)], capture_output=True, text=True, timeout=600)
+    line = [l for l in p.stdout.splitlines() if l.startswith("XVRESULT ")]
+    if not line:
+        raise common.InfraError("registration child failed: " + (p.stderr or p.stdout)[-800:])
+    for r in json.loads(line[-1][9:]):
+        mixed = len(set(r["kinds"])) > 1
+        ctx.case(name, repr(r["kinds"]) + str(len(ctx.distinct)), mixed, {"stages": r["kinds"], "registered_as": r["nums"]})
+        ctx.count("registration/" + ("mixed" if mixed else r["kinds"][0] + "-only"))
+        want = r["proc"] and any(not x for x in r["is_proxy"])
+        ok = (len(r["nums"]) == 1 and r["mru"] == r["nums"]) if want else r["nums"] == []
+        if sorted(r["tasks"]) != r["keys"] or len(set(r["tasks"])) != len(r["tasks"]):
+            ok = False
+        if not ok:
+            ctx.spec_failure({"stream": name, "stages": r["kinds"]}, {"job_numbers": r["nums"], "in_mru": r["mru"], "dict_keys": r["keys"], "deque": r["tasks"]},
+                             "a pipeline containing a real process is not registered exactly once (or an alias-only one is)", None)
+
+
+def translate(ctx):
+    from translator import c20 as tr
+
+    text, fps, errors = tr.generate(common.REPO)
+    common.write_if_changed(common.module_path("XonshVerif.Gen.JobsReg"), text)
+    ctx.fingerprints.update(fps)
+    ctx.translator_errors += errors
+    ctx.trusted_base.append("translator/pylite.py + translator/c20.py for the registration guard of _run_command_pipeline")
+
+
 def run(ctx):
     ctx.assumptions += [
         "each job-control operation is atomic (no lock in the code; intra-op interleavings are not modelled)",
@@ -305,11 +387,13 @@ def run(ctx):
         "per-step differential comparison of the real jobs.py tables with the model on generated histories."
     )
     stream_histories(ctx, ctx.n(250, 4000), ctx.n(30, 40))
+    stream_registration(ctx, ctx.n(40, 400))
 
 
 def search(ctx, reason):
     ctx.extra["search_reason"] = reason
     stream_histories(ctx, ctx.n(1500, 8000), 40, name="search:histories")
+    stream_registration(ctx, ctx.n(100, 400), name="search:registration")
 
 
 def replay(ctx, path):
